@@ -224,26 +224,16 @@ func runC05(c *core.Ctx) {
 		fd.S.DriverCall(f)
 		return true
 	}
-	// advance lets simulated time pass. Under Engine F instrumented goroutines only run when the
-	// driver resumes them, so time passes in slices of 250 ms with the system run to idle in between
-	// (interleavings are explored at one instant; a goroutine is never held across a time slice).
+	// advance lets simulated time pass. Under Engine F instrumented goroutines only run when they are
+	// resumed: FDriver.Advance pumps the scheduler while the clock runs.
 	advance := func(d time.Duration) {
 		if fd == nil {
 			time.Sleep(d)
 			return
 		}
-		for d > 0 {
-			early = 0
-			settle()
-			chunk := 250 * time.Millisecond
-			if d < chunk {
-				chunk = d
-			}
-			time.Sleep(chunk)
-			d -= chunk
-		}
-		// what the last slice woke up (timers) is left to the scheduler, so that the next action can
-		// land in the same instant, in the middle of the reaction to a timer
+		early = 0
+		settle()
+		fd.Advance(d)
 	}
 	trigger := func() {
 		if !driverCall(func() { nm.TriggerBlockSynchronize(ctx) }) {
@@ -428,7 +418,13 @@ func runC05(c *core.Ctx) {
 		fd.ReleaseAll()
 	}
 	epilogueStart := time.Now()
-	trigger()
+	// Every header that arrived was followed by its trigger at that moment (as MonitorHeaders does).
+	// In half of the runs nothing triggers synchronisation again from here on, so a trigger that the
+	// reader lost is not papered over; in the other half headers keep arriving now and then.
+	quietEpilogue := t.Draw(2) == 0
+	if !quietEpilogue {
+		trigger()
+	}
 	missing := func() []int {
 		var out []int
 		for x := bestTip(); x != nil && x.height >= startHeight && x.height > 0; x = x.parent {
@@ -457,7 +453,7 @@ func runC05(c *core.Ctx) {
 		if gaveUp {
 			break
 		}
-		if i%20 == 19 {
+		if i%20 == 19 && !quietEpilogue {
 			trigger() // a new header arrives now and then (MonitorHeaders would do this)
 		}
 		if len(missing()) == 0 && bestTip().height >= startHeight {
